@@ -154,10 +154,14 @@ type pool struct {
 
 	unitTime map[int]time.Duration
 	units    []unit
+
+	hbTimeout, inTimeout time.Duration
+	quiet                bool
 }
 
 func newPool(c *vf.Ctx, reg []*EP, agg *aggregate) *pool {
-	return &pool{c: c, reg: reg, agg: agg, tier: c.Tier, digest: registryDigest(reg), start: time.Now(), unitTime: map[int]time.Duration{}, units: buildUnits(reg)}
+	return &pool{c: c, reg: reg, agg: agg, tier: c.Tier, digest: registryDigest(reg), start: time.Now(), unitTime: map[int]time.Duration{}, units: buildUnits(reg),
+		hbTimeout: heartbeatTimeout, inTimeout: perInputTimeout}
 }
 
 func (p *pool) spawn() (*worker, error) {
@@ -226,7 +230,7 @@ const (
 
 // follow reads records of unit u until Done/Stop or worker death / silence.
 // lastAt receives the most recent "about to run" record (careful mode).
-func (p *pool) follow(w *worker, u int, next *int, timeout time.Duration, lastAt **delta) runEnd {
+func (p *pool) follow(w *worker, u int, next *int, timeout time.Duration, lastAt **delta, batchEnd *int) runEnd {
 	t := time.NewTimer(timeout)
 	defer t.Stop()
 	for {
@@ -253,6 +257,9 @@ func (p *pool) follow(w *worker, u int, next *int, timeout time.Duration, lastAt
 			}
 			p.agg.merge(p.units[u].EP.Name, d)
 			*next = d.Next
+			if batchEnd != nil {
+				*batchEnd = d.BatchEnd
+			}
 			if d.Done {
 				return endDone
 			}
@@ -289,6 +296,9 @@ func (p *pool) runAll() {
 	sort.SliceStable(order, func(a, b int) bool { return ucost(p.units[order[a]]) > ucost(p.units[order[b]]) })
 	units := make(chan int, len(order))
 	for _, u := range order {
+		if p.units[u].EP.Name == selfTestName {
+			continue // run by selfTest(), never part of the verdict
+		}
 		units <- u
 	}
 	close(units)
@@ -364,7 +374,8 @@ func (p *pool) runUnit(w *worker, u int) *worker {
 			w = p.fresh(w)
 			continue
 		}
-		end := p.follow(w, u, &next, heartbeatTimeout, nil)
+		batchEnd := 0
+		end := p.follow(w, u, &next, p.hbTimeout, nil, &batchEnd)
 		if end == endDone {
 			return w
 		}
@@ -375,12 +386,16 @@ func (p *pool) runUnit(w *worker, u int) *worker {
 			return p.fresh(w)
 		}
 		w = p.fresh(w)
-		// careful mode: case by case over the next 2 batches
+		// careful mode: case by case over the batch the worker had announced
 		var at *delta
-		if !w.send("RUN %d %d %d 1", u, next, 2*batchMax) {
+		limit := batchEnd - next
+		if limit <= 0 {
+			limit = 2 * batchMax
+		}
+		if !w.send("RUN %d %d %d 1", u, next, limit) {
 			continue
 		}
-		end = p.follow(w, u, &next, perInputTimeout, &at)
+		end = p.follow(w, u, &next, p.inTimeout, &at, nil)
 		if end == endDone {
 			p.noteTransient(ep.Name)
 			return w
@@ -393,7 +408,7 @@ func (p *pool) runUnit(w *worker, u int) *worker {
 		kind := "fatal@" + strings.TrimPrefix(detail, "fatal error: ")
 		if end == endHung {
 			kind = "hang"
-			detail = fmt.Sprintf("no return within %s", perInputTimeout)
+			detail = fmt.Sprintf("no return within %s", p.inTimeout)
 		}
 		w = p.fresh(w)
 		if at == nil || at.Next < next {
@@ -408,7 +423,7 @@ func (p *pool) runUnit(w *worker, u int) *worker {
 			n2 := at.Next
 			var at2 *delta
 			cw.send("RUN %d %d 1 1", u, at.Next)
-			e2 := p.follow(cw, u, &n2, perInputTimeout, &at2)
+			e2 := p.follow(cw, u, &n2, p.inTimeout, &at2, nil)
 			if e2 == endDied || e2 == endHung {
 				bad++
 				if e2 == endDied {
@@ -437,5 +452,83 @@ func (p *pool) noteTransient(name string) {
 	p.agg.mu.Lock()
 	p.agg.transient++
 	p.agg.mu.Unlock()
+	if p.quiet {
+		return
+	}
 	fmt.Printf("C07 note: a worker death/silence in %s did not reproduce (not a verdict)\n", name)
+}
+
+// selfTest drives the synthetic entry point c07.selftest (registry.go) through the very same
+// worker / triage machinery and demands that a panic, an over-allocation, a fatal stack overflow
+// and a hang are each detected and attributed to the right input. It is the self-test of E5: if
+// any of the four goes unnoticed the run is a harness error, not a verdict.
+func selfTest(c *vf.Ctx, reg []*EP) error {
+	agg := newAggregate()
+	go func() {
+		for range agg.distinctCh {
+		}
+	}()
+	p := newPool(c, reg, agg)
+	p.hbTimeout, p.inTimeout, p.quiet = 4*time.Second, 2*time.Second, true
+	var w *worker
+	found := false
+	for u, un := range p.units {
+		if un.EP.Name == selfTestName {
+			w = p.runUnit(w, u)
+			found = true
+		}
+	}
+	w.kill()
+	close(agg.distinctCh)
+	if !found {
+		return fmt.Errorf("no self-test entry point in the registry")
+	}
+	var miss []string
+	if pr := agg.panics[selfTestName]["outside-manticore"]; pr == nil || string(pr.In) != "panic" {
+		miss = append(miss, "panic on input \"panic\" not reported")
+	}
+	okAlloc := false
+	for _, a := range agg.allocs[selfTestName] {
+		if string(a.In) == "alloc" && a.Bytes >= 4<<20 {
+			okAlloc = true
+		}
+	}
+	if !okAlloc || len(agg.allocs[selfTestName]) != 1 {
+		miss = append(miss, fmt.Sprintf("over-allocation on input \"alloc\" not reported exactly once (%d reports)", len(agg.allocs[selfTestName])))
+	}
+	var hang, die bool
+	for _, f := range agg.fatals[selfTestName] {
+		switch {
+		case f.Kind == "hang" && string(f.In) == "hang":
+			hang = true
+		case strings.Contains(f.Kind, "stack overflow") && string(f.In) == "die":
+			die = true
+		default:
+			miss = append(miss, fmt.Sprintf("unexpected fatal record %q on %q", f.Kind, f.In))
+		}
+	}
+	if !hang {
+		miss = append(miss, "hang on input \"hang\" not reported")
+	}
+	if !die {
+		miss = append(miss, "stack overflow on input \"die\" not reported")
+	}
+	if n := len(agg.panics[selfTestName]); n != 1 {
+		miss = append(miss, fmt.Sprintf("%d panic sites reported, want 1", n))
+	}
+	if os.Getenv("C07_VERBOSE") != "" {
+		for _, f := range agg.fatals[selfTestName] {
+			fmt.Printf("C07 self-test: input %q -> %s (%s)\n", f.In, f.Kind, f.Detail)
+		}
+		for _, a := range agg.allocs[selfTestName] {
+			fmt.Printf("C07 self-test: input %q -> %d bytes allocated\n", a.In, a.Bytes)
+		}
+		for w, pr := range agg.panics[selfTestName] {
+			fmt.Printf("C07 self-test: input %q -> panic at %s: %s\n", pr.In, w, pr.Msg)
+		}
+	}
+	if len(miss) > 0 {
+		return fmt.Errorf("%s", strings.Join(miss, "; "))
+	}
+	return nil
 }
